@@ -155,20 +155,30 @@ def check_helpers(rep):
         return prof.common_call_hook(ex, path, args, node)
 
     def req():
-        qs = Term("req.qs")
         return Struct("Request", {"headers": Term("req.headers"),
-                                  "s3ext": Struct("S3Extensions", {"qs": qs})})
+                                  "s3ext": Struct("S3Extensions", {"qs": Term("req.qs")})})
     cases = [("parse_header", [Const("NAME")]), ("parse_opt_header", [Const("NAME")]),
-             ("parse_opt_header_timestamp", [Const("NAME"), Const("FMT")])]
+             ("parse_opt_header_timestamp", [Const("NAME"), Const("FMT")]),
+             ("parse_query", [Const("NAME")]), ("parse_opt_query", [Const("NAME")]),
+             ("parse_opt_query_timestamp", [Const("NAME"), Const("FMT")])]
     for fname, extra in cases:
         fn = prog.find_fn(fname)
         ex = rsx.Executor(prog, call_hook=call_hook, method_hook=method_hook, macro_hook=prof.macro_hook)
         paths = ex.explore(fn, lambda: [req()] + list(extra), "http::de")
         n_paths += len(paths)
         rep.transitions += ex.queries
-        src_t = Term("all", Term("req.headers"), Const("NAME"))
-        first = ex.is_variant(Term("nth", src_t, 0), "Some", ["Some", "None"])
-        second = ex.is_variant(Term("nth", src_t, 1), "Some", ["Some", "None"])
+        is_q = "query" in fname
+        if is_q:
+            qsv = Term("payload", Term("req.qs"), "Some")
+            src_t = Term("all", qsv, Const("NAME"))
+            qs_some = ex.is_variant(Term("req.qs"), "Some", ["Some", "None"])
+            first = z3.And(qs_some, ex.is_variant(Term("nth", src_t, 0), "Some", ["Some", "None"]))
+            second = z3.And(qs_some, ex.is_variant(Term("nth", src_t, 1), "Some", ["Some", "None"]))
+        else:
+            src_t = Term("all", Term("req.headers"), Const("NAME"))
+            first = ex.is_variant(Term("nth", src_t, 0), "Some", ["Some", "None"])
+            second = ex.is_variant(Term("nth", src_t, 1), "Some", ["Some", "None"])
+        required = fname in ("parse_header", "parse_query")
         s = z3.Solver()
         s.add(*ex.axioms)
         for p in paths:
@@ -186,24 +196,24 @@ def check_helpers(rep):
                 s.pop()
                 return res == z3.unsat
             if ent(z3.Not(first)):
-                okk = (r.name == "Err" and kind == "missing_header") if fname == "parse_header" else \
+                okk = (r.name == "Err" and str(kind).startswith("missing_")) if required else \
                     (r.name == "Ok" and deref(r.payload[0]).name == "None")
                 if not okk:
                     problems.append(("helper-absent:" + fname, "%s on an absent header returns %r" % (fname, r)))
             elif ent(second):
-                if not (r.name == "Err" and kind == "duplicate_header"):
+                if not (r.name == "Err" and str(kind).startswith("duplicate_")):
                     problems.append(("helper-duplicate:" + fname, "%s on a duplicated header returns %r" % (fname, r)))
             elif ent(z3.And(first, z3.Not(second))):
                 if r.name == "Ok":
                     v = deref(r.payload[0])
                     inner = deref(v.payload[0]) if isinstance(v, Variant) and v.name == "Some" else v
-                    if "value_parse" not in vkey(inner) or 'nth(all(req.headers,#NAME),0)' not in vkey(inner):
+                    if ("value_parse" not in vkey(inner) and "parse(" not in vkey(inner)) or vkey(Term("nth", src_t, 0)) not in vkey(inner):
                         problems.append(("helper-value:" + fname, "%s returns %r for a single header" % (fname, v)))
-                elif kind not in ("invalid_header",):
+                elif not str(kind).startswith("invalid_"):
                     problems.append(("helper-single-error:" + fname, "%s on a single header fails with %r" % (fname, r)))
             else:
                 problems.append(("helper-undecided:" + fname, "a path of %s does not fix the header count" % fname))
-    rep.encoded("crates/s3s/src/http/de.rs", "parse_header, parse_opt_header, parse_opt_header_timestamp")
+    rep.encoded("crates/s3s/src/http/de.rs", "parse_header, parse_opt_header, parse_opt_header_timestamp, parse_query, parse_opt_query, parse_opt_query_timestamp")
     return problems, n_paths
 
 
